@@ -45,6 +45,10 @@ def catalogue(dep: dict, r) -> List[Tuple[str, str, List[Tuple[int, int]]]]:
         for other, opart, oval in [("newTextVector", "oneText", "some text"), ("newNumberVector", "oneNumber", "12:30"), ("newSwitchVector", "oneSwitch", "Off")]:
             if other != own:
                 out.append(("kind-mismatch", f'<{other} device="{d}" name="{n}"><{opart} name="{e1}">{oval}</{opart}></{other}>', named(vi, [e1])))
+        if kind == "text":
+            # bytes >= 0x80: the transports are Latin-1 (one character per byte); a peer may send any of them
+            out.append(("latin1-bytes", f'<newTextVector device="{d}" name="{n}"><oneText name="{e1}">caf\xe9 \xff\xfe \xb0</oneText></newTextVector>', named(vi, [e1])))
+            out.append(("lone-utf8-lead-byte", f'<newTextVector device="{d}" name="{n}"><oneText name="{e1}">\xc3</oneText></newTextVector>', named(vi, [e1])))
         if kind == "switch":
             out.append(("invalid-switch", f'<newSwitchVector device="{d}" name="{n}"><oneSwitch name="{e1}">Maybe</oneSwitch></newSwitchVector>', []))
         if kind == "number":
@@ -194,7 +198,7 @@ def run_into(v, tier: str, r) -> None:
         cat = catalogue(dep, r)
         r.shuffle(cat)
         per = 25 if tier == "quick" else 60
-        always = [c for c in cat if c[0].startswith("enable") or c[0] == "huge-number"]
+        always = [c for c in cat if c[0].startswith("enable") or c[0] in ("huge-number", "latin1-bytes", "lone-utf8-lead-byte")]
         for transport in ("tcp", "tty", "direct", "anon"):
             items = cat[:per] + [c for c in always if c not in cat[:per]]
             r.shuffle(items)
